@@ -109,6 +109,10 @@ def gen_script(ctx, cplx=False):
                   "eq R%d_l R%d_r" % (t, t),
                   "add R%d_s %s %s" % (t, a, b), "sub R%d_d %s %s" % (t, a, b), "sub R%d_z %s %s" % (t, a, a),
                   "comm R%d_c %s %s" % (t, a, b), "acomm R%d_ac %s %s" % (t, a, b),
+                  # compound assignments, also with the object itself on the right-hand side (R *= R, R += R, R -= R)
+                  "imul R%d_ip %s %s" % (t, a, b), "imul R%d_sq %s R%d_sq" % (t, a, t), "iadd R%d_dbl %s R%d_dbl" % (t, a, t),
+                  "isub R%d_nil %s R%d_nil" % (t, a, t), "isub R%d_id %s %s" % (t, a, b), "mul R%d_aa %s %s" % (t, a, a),
+                  "eq R%d_sq R%d_aa" % (t, t),
                   "smul R%d_m %s %s" % (t, cv(coef(r)), a), "smul R%d_m0 %s %s" % (t, cv(0.0), a),
                   "smul R%d_mt %s %s" % (t, cv(1e-14), a),
                   "neg R%d_n %s" % (t, a), "addc R%d_k %s %s" % (t, cv(coef(r)), a),
@@ -200,7 +204,7 @@ def correspondence(ctx):
                 lhs, rhs = l.split(" => ")
                 if " ".join(lhs.split()[3:]) != rhs.strip():
                     ctx.distinct.add(l)
-            elif kind in ("mul", "comm", "acomm", "add", "sub", "eq", "commutes", "act", "prod", "smul", "sz", "sz2", "nop"):
+            elif kind in ("mul", "comm", "acomm", "add", "sub", "eq", "commutes", "act", "prod", "smul", "sz", "sz2", "nop", "imul", "iadd", "isub"):
                 ctx.distinct.add(variant + l)
         if not ctx.samples:
             ctx.samples = [l for l in obs if l.startswith("o mul")][:3] + [l for l in obs if l.startswith("o def")][40:42] \
@@ -230,7 +234,7 @@ def replay_script(cmds, line):
     names = set(body)
     need = [c for c in cmds if c.split()[0] in ("def", "prod") and c.split()[1] in names]
     # transitive: results used as operands
-    prod = [c for c in cmds if c.split()[0] in ("mul", "add", "sub", "comm", "acomm", "smul", "neg", "addc") and c.split()[1] in names]
+    prod = [c for c in cmds if c.split()[0] in ("mul", "add", "sub", "comm", "acomm", "smul", "neg", "addc", "imul", "iadd", "isub") and c.split()[1] in names]
     for c in prod:
         for tok in c.split()[2:]:
             need += [d for d in cmds if d.split()[0] in ("def", "prod") and d.split()[1] == tok]
